@@ -25,6 +25,10 @@ SCHEMAS = {
         ('l', pa.list_(pa.int64())),
     ]),
     'single': lambda: pa.schema([('i', pa.int64())]),
+    # field ATTRIBUTES beyond name and type: a required (NOT NULL) column and field metadata, as a schema read back with
+    # pq.read_schema() or mirrored from a database table has them
+    'required': lambda: pa.schema([pa.field('i', pa.int64(), nullable=False), pa.field('s', pa.string(), metadata={'origin': 'db'}),
+                                   pa.field('f', pa.float64())], metadata={'table': 't'}),
 }
 
 
@@ -32,7 +36,7 @@ def build_rows(spec):
     r = random.Random(spec['rseed'])
     rows = []
     for k in range(spec['rows']):
-        row = {'i': k * 7 - 3 if r.random() < 0.9 else None}
+        row = {'i': k * 7 - 3 if (r.random() < 0.9 or spec['schema'] == 'required') else None}
         if spec['schema'] != 'single':
             row['s'] = r.choice(['', 'a', 'row%d' % k, '€\U0001f600', None, 'x' * r.randint(0, 30)])
             row['f'] = r.choice([0.0, -1.5, k / 3, 1e300, None, r.uniform(-1e3, 1e3)])
@@ -75,7 +79,7 @@ class C20(Check):
     ASSUMPTIONS = ['pyarrow is trusted as parquet codec and as the independent reader']
     ANCHORS = ['rxsci/container/parquet.py', 'rxsci/data/batch.py']
     REQUIRED_TAGS = ['none', 'snappy', 'gzip', 'zstd', 'rows=0', 'rows<b', 'rows=b', 'rows=kb', 'rows%b!=0', 'path', 'fileobj',
-                     'nested', 'row_group', 'rows-with-mixed_order', 'rows-with-mixed_extra', 'rows-with-reversed', 'pushed-source', 'after-a-failed-dump']
+                     'nested', 'required', 'row_group', 'rows-with-mixed_order', 'rows-with-mixed_extra', 'rows-with-reversed', 'pushed-source', 'after-a-failed-dump']
     REQUIRED_OBSERVED = ['rows_compared_rxsci_reader', 'rows_compared_pyarrow_reader']
 
     def __init__(self):
@@ -103,7 +107,7 @@ class C20(Check):
             yield {'rows': rows, 'batch': b,
                    'load_batches': sorted({1 if rows <= 400 else 17, rng.randint(1, 2000), max(1, b)}),
                    'row_group_size': rng.choice([None, None, 1, 5, 100]),
-                   'compression': comps[k % 4], 'schema': ['flat', 'nested', 'single'][(k // 4) % 3],
+                   'compression': comps[k % 4], 'schema': ['flat', 'nested', 'single', 'required'][(k // 4) % 4],
                    'target': 'path' if k % 5 else 'fileobj', 'rseed': rng.randrange(1 << 30),
                    'rowform': ['uniform', 'mixed_order', 'uniform', 'mixed_extra', 'reversed'][(k // 2) % 5]}
 
